@@ -61,9 +61,9 @@ def next (E : Eph) (x : Month) (n : Int) : Option Month :=
       let m' : Int := if lp > 0 ∧ m > lp then m - 1 else m
       fromYm E y (if isLeap then -m' else m')
 
-/-- `LunarYear::get_months`: from_ym(y,1) then next(1) while the year stays (steps into y+1: refused for 9999) -/
+/-- `LunarYear::get_months` (after fix D10): from_ym(y,1) then next(1) month_count − 1 times -/
 def yearMonths (E : Eph) (y : Int) : Option (List Month) :=
-  if y < 0 ∨ y ≥ 9999 then none
+  if y < 0 ∨ y > 9999 then none
   else some ((List.range (E.cnt y)).map fun i => ⟨y, i⟩)
 
 def yearDayCount (E : Eph) (y : Int) : Option Int :=
